@@ -129,15 +129,38 @@ func isDefinedForm(s string) bool {
 	if _, ok := refwire.CodeFromName(s); ok {
 		return true
 	}
-	return strings.HasPrefix(s, "code_")
+	// code_<number>: the prefix followed by decimal digits and nothing else
+	// (which digit strings are accepted — leading zeros, values beyond 32
+	// bits — is not fixed by the property)
+	rest, ok := strings.CutPrefix(s, "code_")
+	if ok && len(rest) > 1 && (rest[0] == '-' || rest[0] == '+') {
+		rest = rest[1:] // a signed number is still a number: grey as well
+	}
+	if !ok || rest == "" {
+		return false
+	}
+	for _, c := range []byte(rest) {
+		if c < '0' || c > '9' {
+			return false
+		}
+	}
+	return true
 }
 
-var rejectSeeds = []string{"", " ", "ok", "OK", "Canceled", "CANCELED", "cancelled", "canceled ", " canceled", "canceled\n", "code", "Code_5", "CODE_5", "code-5", "code5", "5", "0", "unknown\x00", "not-found", "notfound", "invalid argument", "unauthenticated1", "unknown,unknown", "ünknown", "\xff"}
+var rejectSeeds = []string{"code_", "code_ 5", "code_5 ", "code_-1", "code_+1", "code_1e3", "code_0x10", "code_17abc", "code_٣", "", " ", "ok", "OK", "Canceled", "CANCELED", "cancelled", "canceled ", " canceled", "canceled\n", "code", "Code_5", "CODE_5", "code-5", "code5", "5", "0", "unknown\x00", "not-found", "notfound", "invalid argument", "unauthenticated1", "unknown,unknown", "ünknown", "\xff"}
 
 var specReject = pbt.Spec[TextCase]{
 	Prop: "C18", Name: "code-text-reject",
 	Gen: func(t *rapid.T) TextCase {
-		switch rapid.IntRange(0, 3).Draw(t, "class") {
+		switch rapid.IntRange(0, 4).Draw(t, "class") {
+		case 4:
+			// almost code_<number>
+			digits := rapid.StringMatching(`[0-9]{0,10}`).Draw(t, "digits")
+			junk := rapid.SampledFrom([]string{"abc", " ", "\n", "_", "x", ".5", "e3", "-", "+", "\x00", ",1"}).Draw(t, "junk")
+			if rapid.Bool().Draw(t, "junkFirst") {
+				return TextCase{Text: "code_" + junk + digits}
+			}
+			return TextCase{Text: "code_" + digits + junk}
 		case 0:
 			return TextCase{Text: rapid.SampledFrom(rejectSeeds).Draw(t, "seed")}
 		case 1:
@@ -175,7 +198,7 @@ var specReject = pbt.Spec[TextCase]{
 		}
 		return info, nil
 	},
-	Rule: "strings that are neither one of the 16 names nor start with code_ (hand-picked near misses, single-byte mutations/truncations/case changes of valid names, random bytes) must be rejected by Code.UnmarshalText; non-trivial = not a defined form",
+	Rule: "strings that are neither one of the 16 names nor code_ followed by decimal digits only (hand-picked near misses, code_<digits> with junk before or after the digits, single-byte mutations/truncations/case changes of valid names, random bytes) must be rejected by Code.UnmarshalText; non-trivial = not a defined form",
 }
 
 func TestCodeTextReject(t *testing.T) { pbt.Run(t, specReject) }
